@@ -1004,7 +1004,118 @@ def w_agg_pages(failure, tier):
     return dict(found=False, note='aggregations across pages: %d pages agree with their first page' % n)
 
 
+# ---------------------------------------------------------------- U29 filter trees with nested objects
+def _flt_ref(f, scope):
+    """documented semantics (C08) on the JSON of a document / a bound object"""
+    (kind, arg), = f.items()
+    if kind == 'KeywordEq':
+        v = scope.get(arg['field'])
+        vals = v if isinstance(v, list) else ([] if v is None else [v])
+        return any(isinstance(x, str) and x.lower() == arg['value'].lower() for x in vals)
+    if kind == 'I64Range':
+        v = scope.get(arg['field'])
+        vals = v if isinstance(v, list) else ([] if v is None else [v])
+        return any(arg['min'] <= x <= arg['max'] for x in vals)
+    if kind == 'Nested':
+        return any(_flt_ref(arg['filter'], o) for o in (scope.get(arg['path']) or []))
+    if kind == 'And':
+        return _flt_list(arg, scope)
+    if kind == 'Or':
+        return any(_flt_ref(g, scope) for g in arg)
+    if kind == 'Not':
+        return not _flt_ref(arg, scope)
+    raise ValueError(kind)
+
+
+def _flt_list(fs, scope):
+    paths = []
+    for g in fs:
+        (kind, arg), = g.items()
+        if kind == 'Nested':
+            if arg['path'] not in paths:
+                paths.append(arg['path'])
+        elif not _flt_ref(g, scope):
+            return False
+    for p in paths:
+        inner = [list(g.values())[0]['filter'] for g in fs if list(g.keys())[0] == 'Nested' and list(g.values())[0]['path'] == p]
+        if not any(_flt_list(inner, o) for o in (scope.get(p) or [])):
+            return False
+    return True
+
+
+def w_filters(failure, tier):
+    """filter trees over documents with two levels of nested objects, against the documented semantics"""
+    kw = lambda n: {"type": "keyword", "name": n, "stored": True, "indexed": True, "fast": True, "nullable": True}
+    add = {"nested_fields": [{"name": "c", "fields": [kw("a"), kw("t"), {"type": "object", "name": "r", "fields": [kw("u"), kw("v")], "nullable": True}], "nullable": True}],
+           "keyword_fields": [{"name": "k", "stored": True, "indexed": True, "fast": True, "nullable": True}]}
+    docs = [
+        {"_id": "d0", "body": "x", "k": "red", "c": [{"a": "alice", "t": "x", "r": [{"u": "p", "v": "1"}, {"u": "q", "v": "2"}]}, {"a": "bob", "t": "y", "r": [{"u": "p", "v": "2"}]}]},
+        {"_id": "d1", "body": "x", "k": "blue", "c": [{"a": "alice", "t": "y", "r": [{"u": "q", "v": "1"}]}]},
+        {"_id": "d2", "body": "x", "k": "RED", "c": [{"a": "Bob", "t": "x", "r": []}, {"a": "carol", "t": "x", "r": [{"u": "p", "v": "1"}, {"u": "p", "v": "2"}]}]},
+        {"_id": "d3", "body": "x", "k": "green", "c": []},
+        {"_id": "d4", "body": "x", "k": "red", "c": [{"a": "alice", "t": "x", "r": [{"u": "q", "v": "2"}]}, {"a": "alice", "t": "z", "r": [{"u": "p", "v": "1"}]}]},
+    ]
+    eq = lambda f, v: {"KeywordEq": {"field": f, "value": v}}
+    nest = lambda p, g: {"Nested": {"path": p, "filter": g}}
+    leaves_c = [eq("a", "alice"), eq("a", "BOB"), eq("t", "x"), eq("t", "y")]
+    leaves_r = [eq("u", "p"), eq("u", "q"), eq("v", "1"), eq("v", "2")]
+    filters = []
+    for a in leaves_c:
+        filters.append(nest("c", a))
+        for b in leaves_c:
+            if a is not b:
+                filters.append({"And": [nest("c", a), nest("c", b)]})                  # siblings share one object
+                filters.append(nest("c", {"And": [a, b]}))
+                filters.append({"Or": [nest("c", a), nest("c", {"Not": b})]})
+    for x in leaves_r:
+        for y in leaves_r:
+            if x is not y:
+                filters.append(nest("c", {"And": [nest("r", x), nest("r", y)]}))         # one reply under one comment
+                filters.append({"And": [nest("c", nest("r", x)), nest("c", nest("r", y))]})   # siblings two levels deep
+                filters.append(nest("c", {"And": [eq("a", "alice"), nest("r", {"And": [x, y]})]}))
+                filters.append({"And": [eq("k", "red"), nest("c", nest("r", x)), {"Not": nest("c", nest("r", y))}]})
+    # inclusive numeric ranges, any value of a multi-valued field / of the bound object
+    add["numeric_fields"] = [{"name": "n", "i64": True, "fast": True, "stored": True, "nullable": True}]
+    add["nested_fields"][0]["fields"].append({"type": "numeric", "name": "s", "i64": True, "fast": True, "stored": True, "nullable": True})
+    nums = [[1, 5], 3, [7], None, [2, 9]]
+    for d, nv in zip(docs, nums):
+        if nv is not None:
+            d["n"] = nv
+        for j, o in enumerate(d["c"]):
+            o["s"] = [j + 1, 10 * (j + 1)] if j % 2 == 0 else 4
+    rng = lambda f, a, b: {"I64Range": {"field": f, "min": a, "max": b}}
+    for (a, b) in ((1, 1), (2, 2), (3, 3), (4, 4), (5, 6), (6, 8), (9, 9), (10, 10), (0, 0), (2, 4), (11, 19), (20, 20)):
+        filters.append(rng("n", a, b))
+        filters.append(nest("c", rng("s", a, b)))
+        filters.append(nest("c", {"And": [eq("a", "alice"), rng("s", a, b)]}))
+        filters.append({"Not": nest("c", rng("s", a, b))})
+    reqs = [dict(REQ_BASE, query={"type": "match_all"}, limit=50, filter=f) for f in filters]
+    out, err = drive_search({"schema": None, "schema_add": add, "batches": [docs[:3], docs[3:]], "requests": reqs})
+    if out is None:
+        return dict(found=False, note='search driver failed: %s' % err)
+    n = 0
+    for f, o in zip(filters, out):
+        if 'ok' not in o:
+            return dict(found=False, note='filter request rejected: %s / %s' % (_json.dumps(f)[:120], str(o)[:200]))
+        got = sorted(h['doc_id'] for h in o['ok']['hits'])
+        want = sorted(d['_id'] for d in docs if _flt_ref(f, d))
+        n += 1
+        if got != want:
+            return dict(found=True, cmd='%s search <<< hex(json)' % BIN, input='5 documents with comments (c) and replies (c.r); match_all with filter %s' % _json.dumps(f),
+                        observed='hits %s' % got, expected='%s (documented nested semantics: one object per nested path, shared by sibling clauses, belonging to the enclosing bound object)' % want)
+    return dict(found=False, note='filter trees: %d filters over nested documents agree with the documented semantics' % n)
+
+
 GENERATORS = {
+    ('U31', 'matches_i64_range'): w_filters,
+    ('U31', 'doc_range'): w_filters,
+    ('U31', 'object_range'): w_filters,
+    ('U30', 'number_array'): w_filters,
+    ('U30', 'number_object'): w_filters,
+    ('U29', 'filter_matches'): w_filters,
+    ('U29', 'nested_filter_passes'): w_filters,
+    ('U29', 'passes_filters_at'): w_filters,
+    ('U29', 'nested_group_passes'): w_filters,
     ('U28', 'scan_segment_aggs'): w_agg_pages,
     ('U28', 'accept_streams_all'): w_agg_pages,
     ('U25', 'compact_generation'): w_history,
